@@ -1215,6 +1215,12 @@ func planC11(prop string, seed uint64, tier string, idx int) *Plan {
 }
 
 func planC12(prop string, seed uint64, tier string, idx int) *Plan {
+	if idx%15 == 14 && prop == "C12" {
+		// opening legacy layouts: the conversion runs inside the first request that loads the index, holding the repository
+		p := planC17(prop, seed, tier, idx)
+		p.Profile = "liveness: first requests to layouts that need a referrers conversion"
+		return p
+	}
 	cg := concSetup(seed, tier)
 	g := cg.gen
 	g.p.Profile = "liveness: uploads, expiry, eviction, collection, cancel, close"
